@@ -80,6 +80,12 @@ def oracle_c02(cid, impl, m):
     return True
 
 
+def oracle_c01_batch(cid, impl, m):
+    """Engine.BatchCheck answers entry i what CheckRelationTuple answers for entry i (judged through the
+    handlers: the C08 oracle)."""
+    return oracle_c08(cid, impl, m)
+
+
 def oracle_c02_transports(cid, impl, m):
     """The per-request depth as the transports hand it to the engine (stream hcheck: REST max-depth absent / 0 / negative / k,
     gRPC max_depth in both request forms, batch; global limits 3, 5, 7, 8; data that needs up to 7 levels): every transport
@@ -290,6 +296,22 @@ def oracle_c08(cid, impl, m):
         if got != dec:
             return ("c08-batch", f"{key} decisions {got} differ from single decisions {dec}")
     return True
+
+
+def oracle_c13_alive(cid, impl, m):
+    """Streams that are judged for C13 by surviving: batches of every size up to the maximum
+    through both transports (hcheck) and checks whose request is cancelled while the engine
+    works (engine-life). A panic in a handler or in a goroutine of the engine ends the harness
+    process, which ./check reports as a crash of the code under test with the last case as replay."""
+    if "returned" in impl:
+        return True if impl["returned"] == "1" else ("c13-hang", "cancelled check did not return")
+    if "batch_rest" in impl:
+        for key in ("batch_rest", "batch_grpc"):
+            v = impl.get(key, "")
+            if v.startswith("status5") or v in ("err:Internal", "err:Unknown") or "panic" in v:
+                return ("c13-batch-5xx", f"{key} answered {v} for a well-formed batch")
+        return True
+    return None
 
 
 def oracle_c13(cid, impl, m):
@@ -953,7 +975,9 @@ PROPS = {
         "lean_module": "Keto.Props.C13",
         "theorems": ["Keto.HT.C13_no_server_no_panic", "Keto.HT.C13_cells_nonempty", "Keto.HT.C13_malformed_rejected",
                      "Keto.HT.C13_table_functional"],
-        "streams": [{"name": "hfuzz", "n": {"quick": 2500, "thorough": 25000}, "oracle": oracle_c13, "thorough_seeds": 3}],
+        "streams": [{"name": "hfuzz", "n": {"quick": 2500, "thorough": 25000}, "oracle": oracle_c13, "thorough_seeds": 3},
+                    {"name": "hcheck", "n": {"quick": 150, "thorough": 1500}, "oracle": oracle_c13_alive, "thorough_seeds": 2},
+                    {"name": "engine-life", "n": {"quick": 60, "thorough": 600}, "oracle": oracle_c13_alive, "thorough_seeds": 2}],
         "rule": "every applicable (endpoint, mutation) cell of 19 REST/gRPC endpoints x 25 mutation kinds (unknown namespace, no/both subjects, null body, null element, wrong JSON types, negative/huge/non-numeric max-depth and page_size, bad token, empty/70 kB/non-UTF-8 strings, truncated/empty body, extra fields, absent proto sub-messages, unknown action, oversized batch, wrong method, missing namespace) with random concrete instances against the real routers (httptest, with recover) and gRPC handler methods; table dumps before/after; non-trivial = mutation other than 'valid'",
         "partial": "the model is a finite classification (endpoint x mutation kind -> allowed answer classes), not a model of JSON/HTTP decoding; it is validated against the real handlers on every run",
         "assumptions": ["negroni/httprouter, net/http, encoding/json and grpc are exercised, not modelled"],
@@ -963,7 +987,7 @@ PROPS = {
         "theorems": ["Keto.H.C08_agree", "Keto.H.C08_engine_results_ok", "Keto.H.C08_mirror_status",
                      "Keto.H.C08_unknown_namespace_never_allowed", "Keto.H.C08_batch_pointwise", "Keto.H.C08_batch_decisions"],
         "streams": [{"name": "hcheck", "n": {"quick": 300, "thorough": 3000}, "oracle": oracle_c08, "thorough_seeds": 3}],
-        "rule": "OPL configuration with relations, a traverse permission and a permission with !; random stored states (via the real mapper); entries with subject id / subject set / no subject, known and unknown namespaces, undeclared relations, names with separators and empty names, max-depth parameters; every entry through REST GET and POST (mirror and always-200), gRPC Check, and batches of 1-5 entries through REST and gRPC batch check; the engine's own result for the mapped tuple is handed to the model; non-trivial = at least one allowed entry",
+        "rule": "OPL configuration with relations, a traverse permission and a permission with !; random stored states (via the real mapper); entries with subject id / subject set / no subject, known and unknown namespaces, undeclared relations, names with separators and empty names, max-depth parameters; every entry through REST GET and POST (mirror and always-200), gRPC Check, and batches of 1-10 entries (10 = the configured maximum) through REST and gRPC batch check; request depths include values beyond 32 bits in the query string; the engine's own result for the mapped tuple is handed to the model; non-trivial = at least one allowed entry",
         "partial": "",
         "assumptions": ["the handler model is parametric in the engine's result; its link to the engine model is C08_engine_results_ok"],
     },
@@ -1044,8 +1068,10 @@ PROPS = {
                      "Keto.C01_complete_pos_general", "Keto.C01_exact_pos_general", "Keto.C01_complete_pos", "Keto.C01_exact_pos",
                      "Keto.C01_complete_pos_strict", "Keto.C01_complete_norewrite", "Keto.C01_complete_strict_counterexample"],
         "streams": [{"name": "engine-c01", "n": {"quick": 250, "thorough": 1000}, "oracle": oracle_c01, "thorough_seeds": 2},
-                    {"name": "engine-wide", "n": {"quick": 10, "thorough": 80}, "oracle": oracle_c01, "thorough_seeds": 2}],
-        "rule": ENGINE_RULE,
+                    {"name": "engine-wide", "n": {"quick": 10, "thorough": 80}, "oracle": oracle_c01, "thorough_seeds": 2},
+                    {"name": "hcheck", "n": {"quick": 150, "thorough": 1500}, "oracle": oracle_c01_batch, "thorough_seeds": 2}],
+        "rule": ENGINE_RULE + "; stream hcheck (see C08): the engine's batch entry point against its single checks, batches of 1-10 "
+                "entries with duplicates and entries that print alike (a subject id spelled like a subject set)",
         "partial": "exactness of the engine model is proved for ALL configurations, '!' included (C01_exact_all: no error and no limit event anywhere in the run imply isMember iff Tr, otherwise Fa; Tr/Fa = the stratified semantics of Keto/Spec/Stratified.lean, proved mutually exclusive, equal to Mem on the positive fragment), in default mode and in strict mode on stores that conform to the declared types; the executable reference evaluator used as run-time oracle is proved sound and complete against the same semantics (refEval_decides) and the engine model is proved to agree with it whenever it answers (C01_exact_all_refEval); on non-stratified instances (p = !p) neither Tr nor Fa holds and the engine cannot finish without error or limit event (C01_open_not_answered). What remains sampled, not proved: that the Go code is the model (correspondence streams), and goroutine schedules - the sequential checkgroup semantics is proved to be what the concurrent group computes (C15_cg_*), and every fourth case also runs with the real concurrent group",
         "assumptions": [],
     },
